@@ -328,6 +328,11 @@ func (env *Env) pkgObject(o types.Object) (Val, error) {
 		loc := fr.addr(g)
 		return Val{T: env.te().Load(env.st, loc), Typ: o.Type(), Loc: loc}, nil
 	}
+	if fo, ok := o.(*types.Func); ok {
+		if sf := fr.vc.sess.prog.FuncValue(fo); sf != nil {
+			return Val{T: fr.funcID(sf), Typ: fo.Type()}, nil
+		}
+	}
 	return Val{}, fmt.Errorf("unsupported package-level object %s", o.Name())
 }
 
@@ -865,6 +870,16 @@ func (env *Env) evalCall(e *SCall) (Val, error) {
 				r = sArr(x.T)
 			}
 			return Val{T: Term{fmt.Sprintf("(not (old_alloc %s))", r.S), SBool}}, nil
+		case "arrayOf":
+			// arrayOf(s): identity of the backing array of slice s
+			x, err := env.eval(e.Args[0])
+			if err != nil {
+				return Val{}, err
+			}
+			if x.T.Sort != SSlice {
+				return Val{}, fmt.Errorf("arrayOf needs a slice")
+			}
+			return Val{T: sArr(x.T)}, nil
 		case "allocated":
 			x, err := env.eval(e.Args[0])
 			if err != nil {
